@@ -110,6 +110,7 @@ QAlpha2 == IF QA = 0 THEN {97, 233} ELSE {97, 65, 233}      \* QA: alphabet sele
 QAlpha1 == {97, 65, 49, 32, 233, 102, 71}
 QAlphaNat == IF QA = 0 THEN {97, 49, 32} ELSE {97, 49, 48, 32}      \* natural order: letters, digits (a leading zero), white space
 QAlphaOf(fn) == IF fn \in NatFns THEN QAlphaNat ELSE QAlpha2
+QKOf(fn) == IF fn \in NatFns \cup {"wcsncmp_s"} THEN Min(K, 2) ELSE K          \* (longer operands of these are seeded: p2.nat_cases, p2.cmp_cases; wcsncmp_s has the count as a further dimension)
 RECURSIVE QStrs(_, _)
 QStrs(A, k) == IF k = 0 THEN {<<>>} ELSE LET S == QStrs(A, k - 1) IN S \cup {Append(x, c) : x \in {t \in S : Len(t) = k - 1}, c \in A}
 TwoOp(fn) == fn \in CmpFns \cup NatFns \cup MemCmpFns \cup FindFns \cup SpanFns \cup IdxFns \cup {"strprefix_s"}
@@ -117,9 +118,9 @@ QHasSlen(fn) == fn \in MemCmpFns \cup FindFns \cup SpanFns \cup {"wcscmp_s", "wc
 QWidth(fn) == IF fn \in {"wcscmp_s", "wcsncmp_s", "wcsicmp_s", "wcscoll_s", "wcsnatcmp_s", "wcsnaticmp_s", "wcsstr_s", "wcsnlen_s", "wmemcmp_s", "memcmp32_s"} THEN 4 ELSE IF fn = "memcmp16_s" THEN 2 ELSE 1
 NextQuery ==
   /\ st.f \in StrQueryFns
-  /\ \E dmax \in Sizes \cup {K + 1}, dstr \in (IF TwoOp(st.f) THEN QStrs(QAlphaOf(st.f), K) ELSE QStrs(QAlpha1, 2)), dterm \in BOOLEAN,
+  /\ \E dmax \in Sizes \cup {K + 1}, dstr \in (IF TwoOp(st.f) THEN QStrs(QAlphaOf(st.f), QKOf(st.f)) ELSE QStrs(QAlpha1, 2)), dterm \in BOOLEAN,
         flags \in {0, 1} :
-     \E dbos \in BosChoices(dmax), sstr \in (IF TwoOp(st.f) THEN QStrs(QAlphaOf(st.f), K) ELSE {<<>>}), sterm \in (IF TwoOp(st.f) THEN BOOLEAN ELSE {TRUE}),
+     \E dbos \in BosChoices(dmax), sstr \in (IF TwoOp(st.f) THEN QStrs(QAlphaOf(st.f), QKOf(st.f)) ELSE {<<>>}), sterm \in (IF TwoOp(st.f) THEN BOOLEAN ELSE {TRUE}),
         snull \in (IF TwoOp(st.f) THEN BOOLEAN ELSE {TRUE}),
         slen \in (IF QHasSlen(st.f) THEN Sizes \cup {K + 1} ELSE {0}),
         ch \in (IF st.f \in ChrFns THEN {97, 65, 233, 0, 300} ELSE {0}),
@@ -154,7 +155,7 @@ NextQuery ==
 Max2(a, b) == IF a > b THEN a ELSE b
 NextQueryDLast ==
   /\ st.f \in StrQueryFns /\ TwoOp(st.f) /\ st.d = N
-  /\ \E dstr \in QStrs(QAlphaOf(st.f), K), dterm \in BOOLEAN, sstr \in QStrs(QAlphaOf(st.f), K), extra \in {0, 1},
+  /\ \E dstr \in QStrs(QAlphaOf(st.f), QKOf(st.f)), dterm \in BOOLEAN, sstr \in QStrs(QAlphaOf(st.f), QKOf(st.f)), extra \in {0, 1},
         slen \in (IF QHasSlen(st.f) THEN 1..(K + 1) ELSE {0}), cnt \in (IF st.f = "wcsncmp_s" THEN {1, K} ELSE {0}) :
        LET dl == Len(dstr) + (IF dterm THEN 1 ELSE 0)
            dmax == dl + (IF dterm THEN extra ELSE 0)          \* without a terminator dest exactly fills dmax
